@@ -589,5 +589,24 @@ mut("12-store-error-swallowed", "C12", "error-kept", ("mtproto_utils.go", "	retu
 mut("19-new-nonce-mixed-with-clock", "C19", "source:RandomInt256@", (H, "	nonceSecond := tl.RandomInt256()\n", "	nonceSecond := tl.RandomInt256()\n	nonceSecond.Xor(nonceSecond.Int, big.NewInt(time.Now().UnixNano()))\n"), (H, "import (\n", "import (\n	\"time\"\n"))
 mut("01-wrapper-flag-bit-moved", "C01", "presence:api.initConnection", ("telegram/methods_special.go", "	Params         JsonValue         `tl:\"flag:1\"`", "	Params         JsonValue         `tl:\"flag:2\"`"))
 
+# --- eleventh round -------------------------------------------------------------------------------------
+TR = "internal/transport/transport.go"
+mut("04-route-by-session-encrypted-flag", "C04", "route:by-the-packet", (TR, "	if isPacketEncrypted(data) {\n", "	if t.m.GetSessionID() != 0 && isPacketEncrypted(data) {\n"))
+mut("04N-route-test-hoisted", "C04", None, (TR, "	var msg messages.Common\n	if isPacketEncrypted(data) {\n", "	var msg messages.Common\n	sealed := isPacketEncrypted(data)\n	if sealed {\n"))
+mut("01-bit-set-only-for-long-slices", "C01", "bit-iff-not-zero", (ENC, "		if !v.Field(i).IsZero() {\n			flag |= 1 << info.index\n		}\n", "		if f := v.Field(i); !f.IsZero() && !(f.Kind() == reflect.Map && f.Len() == 0) {\n			flag |= 1 << info.index\n		}\n"))
+mut("01-putstring-trims-nul", "C01", "bytes-as-given", (CW, "	e.PutMessage([]byte(msg))\n", "	e.PutMessage(bytes.TrimRight([]byte(msg), \"\\x00\"))\n"), (CW, "	\"math\"\n", "	\"bytes\"\n	\"math\"\n"))
+mut("03-reader-parses-a-copy-cut-to-blocks", "C03", "reader:parses-the-cipher-output", (MSG, "	buf = bytes.NewBuffer(decrypted)\n", "	buf = bytes.NewBuffer(decrypted[:len(decrypted)&^15])\n"))
+mut("06-generator-seven-forgotten", "C06", "generator:g=7", (H, "	// this apparently is just part of diffie hellman, so just leave it as it is, hope that it will just work\n", "	if dhi.G < 2 || dhi.G > 6 {\n		return errors.New(\"handshake: bad generator\")\n	}\n	// this apparently is just part of diffie hellman, so just leave it as it is, hope that it will just work\n"))
+mut("06N-generator-range-checked", "C06", None, (H, "	// this apparently is just part of diffie hellman, so just leave it as it is, hope that it will just work\n", "	if dhi.G < 2 || dhi.G > 7 {\n		return errors.New(\"handshake: bad generator\")\n	}\n	// this apparently is just part of diffie hellman, so just leave it as it is, hope that it will just work\n"))
+mut("09-handlers-called-in-goroutines", "C09", "loop-variable-not-shared", ("mtproto.go", "		for _, f := range m.serverRequestHandlers {\n			processed = f(message)\n			if processed {\n				break\n			}\n		}\n", "		for _, f := range m.serverRequestHandlers {\n			go func() { f(message) }()\n			processed = true\n		}\n"))
+mut("09N-goroutine-gets-loop-value-as-argument", "C09", None, ("mtproto.go", "		for _, f := range m.serverRequestHandlers {\n			processed = f(message)\n			if processed {\n				break\n			}\n		}\n", "		for _, f := range m.serverRequestHandlers {\n			go func(h customHandlerFunc) { h(message) }(f)\n			processed = true\n		}\n"))
+mut("05-cipher-keeps-callers-iv", "C05", "param-untouched", ("internal/aes_ige/ige_cipher.go", "func NewCipher(key, iv []byte) (*Cipher, error) {\n", "var seedLastIV []byte\n\nfunc NewCipher(key, iv []byte) (*Cipher, error) {\n	seedLastIV = iv\n"))
+
+mut("11-rotation-forgets-by-computed-key", "C11", "forget:the-entry-looked-up", ("mtproto.go", "			m.responseChannels.Delete(badMsgID)\n			m.expectedTypes.Delete(badMsgID)\n			v <- &errorSessionConfigsChanged{}\n", "			m.responseChannels.Delete(badMsgID)\n			m.expectedTypes.Delete(badMsgID)\n			m.responseChannels.Delete(badMsgID - 4)\n			v <- &errorSessionConfigsChanged{}\n"))
+mut("14-bitflag-option-for-every-optional-bool", "C14", "bitflag-option-iff-true", ("internal/cmd/tlgen/gen/tl_gen_structs.go", "	if param.Type == \"true\" {\n		tag += \",encoded_in_bitflags\"\n	}\n", "	if param.Type == \"true\" || param.Type == \"Bool\" && param.IsOptional {\n		tag += \",encoded_in_bitflags\"\n	}\n"))
+mut("19-new-nonce-tagged-with-session-id", "C19", "source:RandomInt256@", (H, "	nonceSecond := tl.RandomInt256()\n", "	nonceSecond := tl.RandomInt256()\n	nonceSecond.SetBit(nonceSecond.Int, 0, uint(m.sessionId&1))\n"))
+mut("20-hosts-matched-by-suffix", "C20", "membership-is-byte-equality", ("telegram/deeplinks/utils.go", "		if l[i] == s {\n", "		if l[i] == s || strings.HasSuffix(s, \".\"+l[i]) {\n"))
+mut("20N-hosts-compared-in-a-switch", "C20", None, ("telegram/deeplinks/utils.go", "		if l[i] == s {\n			return true\n		}\n", "		switch l[i] {\n		case s:\n			return true\n		}\n"))
+
 json.dump(M, open('/verif/selftest/mutations.json', 'w'), indent=1, ensure_ascii=False)
 print(len(M), "mutations")
